@@ -824,6 +824,42 @@ func (r *dRunner) runOp(op *dOp) map[string]interface{} {
 		for k, v := range r.hstate(op.D) {
 			ob[k] = v
 		}
+	case "fragnames":
+		// the names of the fragments that hold at least one entry, over all live members, partitions and kinds; and the
+		// fragment name the DMap service derives for DMap D
+		seen := map[string]bool{}
+		for _, m := range r.cl.Members {
+			if !m.Alive {
+				continue
+			}
+			for p := uint64(0); p < m.Cfg.PartitionCount; p++ {
+				for _, kind := range []partitions.Kind{partitions.PRIMARY, partitions.BACKUP} {
+					for _, n := range m.DB.VerifDMap().VerifFragmentNames(kind, p) {
+						if !strings.HasPrefix(n, "dmap.") {
+							continue
+						}
+						if ok, st := m.DB.VerifDMap().VerifFragmentStats(kind, strings.TrimPrefix(n, "dmap."), p); ok && st.Length > 0 {
+							seen[n] = true
+						}
+					}
+				}
+			}
+		}
+		var names []string
+		for n := range seen {
+			names = append(names, hex.EncodeToString([]byte(n)))
+		}
+		sort.Strings(names)
+		ob["r"] = "ok"
+		ob["names"] = names
+		if op.D != "" {
+			for _, m := range r.cl.Members {
+				if m.Alive {
+					ob["fn"] = hex.EncodeToString([]byte(m.DB.VerifDMap().VerifFragmentName(op.D)))
+					break
+				}
+			}
+		}
 	case "dump":
 		ob["r"] = "ok"
 		ob["copies"] = r.dump(op.D, key)
